@@ -67,6 +67,7 @@ type Tunnel struct {
 	ClientClose string // "closewrite-then-read", "close-after-read", "abrupt"
 	ServerClose string // "after-eof", "after-send", "abrupt"
 	WriteSizes  []int
+	SlowStart   time.Duration // the client waits this long before it starts reading
 	// observations
 	conn       net.Conn
 	OpenErr    error
@@ -353,6 +354,10 @@ func (ts *TunnelSet) Start(t *Tunnel) {
 				}
 			}
 		})
+		if t.SlowStart > 0 {
+			simrt.Probe("slow_reader")
+			simrt.Sleep(t.SlowStart)
+		}
 		buf := make([]byte, 40000)
 		for t.clientGot < t.Down || t.ClientClose == "closewrite-then-read" {
 			rb := buf[:1+simrt.Choose(len(buf), "readsz")]
